@@ -76,7 +76,9 @@ def location_rules(ctx, P):
     # ---- prepend_at / at
     f = ctx.fn(E + "prepend_at")
     if f:
-        ext = ctx.find_calls(f, r"Extend<.*>>::extend")
+        # `locations.extend(self.locations)` or `locations.append(&mut self.locations)`: the handed-down
+        # prefix first, the error's own locations after it
+        ext = ctx.find_calls(f, r"Extend<.*>>::extend$|^alloc::vec::Vec::<T, A>::(append|extend_from_slice)$")
         ok = len(ext) == 1 and ctx.expr(f, ext[0][1]["args"][0]) == "a2" and ctx.expr(f, ext[0][1]["args"][1]) == "self.locations"
         ctx.ob(P + ".prepend_at.ancestors-first", f.key, "locations.extend(self.locations)", ok, "extend(%s)" % [(ctx.expr(f, t["args"][0]), ctx.expr(f, t["args"][1])) for _, t in ext])
         asg = ctx.find_field_assigns(f, "locations", 1)
@@ -114,35 +116,45 @@ def syn_conversion_rules(ctx, P):
         ctx.ob(P + ".single-shape", f.key, "two Error::new sites", len(news) == 2, "%d" % len(news))
         for blk, t in news:
             ctx.requires(P + ".single-direct", f, blk, "syn::Error::new", [r"^darling_core::error::Error::len\(a1\)=1$"])
-        fl = ctx.find_calls(f, r"Error::flatten$")
-        comb_deep = ctx.find_calls_deep(f, r"^syn::error::Error::combine$")
-        comb = [(blk, t) for blk, t, owner in comb_deep if owner is f]
+        # the bundle branch may live in `from` itself or in one private helper it hands the error to
+        M = f
+        if not ctx.find_calls(f, r"Error::flatten$"):
+            hs = [h for h in ctx.local_callees(f, 1) if str(h.raw.get("vis", "")).startswith("Restricted") and ctx.find_calls(h, r"Error::flatten$")]
+            if len(hs) == 1:
+                M = hs[0]
+                site = [(b2, t2) for b2, t2 in f.calls() if mir.callee_of(t2) == M.key]
+                ctx.ob(P + ".multi-helper", f.key, "bundle handed to %s" % M.key.rsplit("::", 1)[-1], len(site) == 1 and ctx.expr(f, site[0][1]["args"][0]) == "a1", "call sites %d" % len(site))
+                for b2, t2 in site:
+                    ctx.requires(P + ".multi-flattens", f, b2, "bundle branch", [("ne", r"^darling_core::error::Error::len\(a1\)$", 1)])
+        fl = ctx.find_calls(M, r"Error::flatten$")
+        comb_deep = ctx.find_calls_deep(M, r"^syn::error::Error::combine$")
+        comb = [(blk, t) for blk, t, owner in comb_deep if owner is M]
         ctx.ob(P + ".multi-shape", f.key, "flatten + combine", len(fl) == 1 and len(comb_deep) == 1, "%d flatten, %d combine" % (len(fl), len(comb_deep)))
         for blk, t in fl + [(blk, t) for blk, t, _ in comb_deep]:
-            ctx.requires(P + ".multi-flattens", f, blk, "flatten/combine", [("ne", r"^darling_core::error::Error::len\(a1\)$", 1)])
+            ctx.requires(P + ".multi-flattens", M, blk, "flatten/combine", [("ne", r"^darling_core::error::Error::len\(a1\)$", 1)])
         for blk, t, owner in comb_deep:
-            if owner is f:
+            if owner is M:
                 continue
             # the same accumulation written as `iter.fold(first, |mut acc, next| { acc.combine(next); acc })`
-            folds = [(b2, t2) for b2, t2 in ctx.find_calls(f, r"Iterator(>)?::fold$") if owner.key in ctx.expr(f, t2["args"][2])]
+            folds = [(b2, t2) for b2, t2 in ctx.find_calls(M, r"Iterator(>)?::fold$") if owner.key in ctx.expr(M, t2["args"][2])]
             args = [ctx.expr(owner, a) for a in t["args"]]
             crets = ctx.ret_values(owner)
             ok = len(folds) == 1 and args == ["a2", "a3"] and crets == ["a2"]
             ctx.ob(P + ".combine-each-leaf", f.key, "fold(first, |acc, next| acc.combine(next))", ok, "fold calls %d, combine%s, closure returns %s" % (len(folds), args, crets))
             if folds:
-                it = ctx.expr(f, folds[0][1]["args"][0])
+                it = ctx.expr(M, folds[0][1]["args"][0])
                 ctx.ob(P + ".combine-in-loop", f.key, "combine repeated for every remaining leaf", re.search(r"Iterator(>)?::map\(", it) is not None and "flatten(a1)" in it, "fold over %s" % it[:160])
         if comb:
             blk, t = comb[0]
-            a1 = ctx.expr(f, t["args"][1])
+            a1 = ctx.expr(M, t["args"][1])
             ctx.ob(P + ".combine-each-leaf", f.key, "combine(next leaf)", "Iterator>::next(" in a1 and "as Some).0" in a1, "combines %s" % a1[:140])
             # combine sits in a loop over the same iterator
-            heads = [h for h in f.normal_blocks() for lab, tb in f.succ_edges(h) if False]
-            inloop = blk in f.reachable(t["target"], False) if t["target"] is not None else False
+            heads = [h for h in M.normal_blocks() for lab, tb in M.succ_edges(h) if False]
+            inloop = blk in M.reachable(t["target"], False) if t["target"] is not None else False
             ctx.ob(P + ".combine-in-loop", f.key, "combine repeated for every remaining leaf", inloop, "combine must be inside the loop over the flattened iterator")
-        mp = ctx.find_calls(f, r"Iterator>::map")
-        ok = len(mp) == 1 and "into_iter(darling_core::error::Error::flatten(a1))" in ctx.expr(f, mp[0][1]["args"][0]).replace("<darling_core::error::Error as core::iter::traits::collect::IntoIterator>::", "") and "::from" in ctx.expr(f, mp[0][1]["args"][1])
-        ctx.ob(P + ".one-diagnostic-per-leaf", f.key, "flatten().into_iter().map(syn::Error::from)", ok, "map(%s)" % [[ctx.expr(f, a)[:120] for a in t["args"]] for _, t in mp])
+        mp = ctx.find_calls(M, r"Iterator>::map")
+        ok = len(mp) == 1 and "into_iter(darling_core::error::Error::flatten(a1))" in ctx.expr(M, mp[0][1]["args"][0]).replace("<darling_core::error::Error as core::iter::traits::collect::IntoIterator>::", "") and "::from" in ctx.expr(M, mp[0][1]["args"][1])
+        ctx.ob(P + ".one-diagnostic-per-leaf", f.key, "flatten().into_iter().map(syn::Error::from)", ok, "map(%s)" % [[ctx.expr(M, a)[:120] for a in t["args"]] for _, t in mp])
 
 
 def run(ctx):
